@@ -163,6 +163,7 @@ def run_job(job):
     out = dict(id=job['id'], request=f'replay {job["logic"]} ## {trunk}' + ''.join(f' ## {s}' for s in steps),
                final=dump_tab(tab), valid=tab.valid, invalid=tab.invalid, premature=tab.premature,
                completed=tab.completed, nsteps=len(tab.history), quitflags=quitflags,
+               wlimits=[(not b.closed) and world_limit_exceeded(tab, b) for b in tab],
                rules=[type(e.rule).__name__ for e in tab.history])
     if job.get('models') and tab.invalid:
         ms = []
